@@ -29,10 +29,11 @@
    * attrs equality compares the eq=True fields only, so "equal" below is [meta_eqb] / [hashinfo_eqb]
      (equality of those fields), not Leibniz equality of the records.
    * `with_unknown` and lazy loading through a storage map are outside the model; `roots` other than [()]
-     is in the model: C08_roots_closed / _multi / _exact (shallow = False); overlapping roots report a
-     sub-tree once per covering root (C08_roots_multi, C08_roots_once_refuted). *)
+     is in the model: C08_roots_closed / _multi / _exact (shallow = False), C08_roots_closed_gen /
+     _keys_once_gen / _shallow (any options); overlapping roots report a sub-tree once per covering root
+     (C08_roots_multi, C08_roots_once_refuted). *)
 From Coq Require Import NArith List Bool Permutation.
-From DvcData Require Import Base.Val Base.PyBase Gen.PyTypes Gen.IDiff Model.Trie Model.IndexDiff Proofs.IndexDiffProofsBase Proofs.IndexDiffBfs Proofs.IndexDiffRefine Proofs.IndexDiffRenames Proofs.IndexDiffExamples Proofs.IndexDiffShallow Proofs.IndexDiffSwapRen Proofs.IndexDiffRoots Proofs.IndexDiffSwapSh Proofs.IndexDiffExamples2.
+From DvcData Require Import Base.Val Base.PyBase Gen.PyTypes Gen.IDiff Model.Trie Model.IndexDiff Proofs.IndexDiffProofsBase Proofs.IndexDiffBfs Proofs.IndexDiffRefine Proofs.IndexDiffRenames Proofs.IndexDiffExamples Proofs.IndexDiffShallow Proofs.IndexDiffSwapRen Proofs.IndexDiffRoots Proofs.IndexDiffSwapSh Proofs.IndexDiffRootsSh Proofs.IndexDiffExamples2.
 Import ListNotations.
 Open Scope N_scope.
 
@@ -332,5 +333,38 @@ Theorem C08_swap_renames_gen : forall o old new fuel,
 Proof. exact diff_swap_gen. Qed.
 Print Assumptions C08_swap_renames_gen.
 
-(* NOT PROVED: `roots` together with shallow = True; rename detection on top of `roots` is modelled
-   ([diff_roots]) and tied by the correspondence, the C08_rename_... theorems are about any change list. *)
+(* ---- `roots` for any options (shallow = True included) ---------------------------------------------------------------- *)
+(* the queue started from any list of roots, any options, any indexes, in closed form over the nodes
+   (key, old side visible, new side visible); per root no key is visited twice *)
+Theorem C08_roots_closed_gen : forall o old new rs fuel,
+  (fuel_for_roots old new rs <= fuel)%nat ->
+  (forall r, NoDup (map fst (srvisited o old new r))) /\
+  exists cs, diff_core_roots o old new rs fuel = Some cs /\
+             Permutation cs (flat_map (fun r => flat_map (syield o old new) (srvisited o old new r)) (eff_roots rs)).
+Proof. intros o old new rs fuel Hf. split; [apply srvisited_keys_NoDup | now apply roots_closed_gen]. Qed.
+Print Assumptions C08_roots_closed_gen.
+
+(* prefix-free roots: no key is reported twice - any options, any (also ill-formed) indexes *)
+Theorem C08_roots_keys_once_gen : forall o old new rs fuel cs,
+  antichain (eff_roots rs) -> (fuel_for_roots old new rs <= fuel)%nat ->
+  diff_core_roots o old new rs fuel = Some cs -> NoDup (map change_key cs).
+Proof. exact roots_keys_once_gen. Qed.
+Print Assumptions C08_roots_keys_once_gen.
+
+(* roots together with shallow = True (stated for any options): for prefix-free roots and well-formed indexes,
+   restricted to the keys k at or below a root r such that no entry p with r <= p < k carries a hash on either
+   side ([rtop]; hashed entries ABOVE the root do not matter - a root starts with both sides visible), the
+   diff is the flat reference; and no key is reported twice *)
+Theorem C08_roots_shallow : forall o old new,
+  WfO old -> WfO new -> (shortcut_on o = true -> HashConsistent old new) ->
+  forall rs fuel, antichain (eff_roots rs) -> (fuel_for_roots old new rs <= fuel)%nat ->
+  exists cs, diff_core_roots o old new rs fuel = Some cs /\
+    NoDup (map change_key cs) /\
+    Permutation (filter (fun c => rtop old new (eff_roots rs) (change_key c)) cs)
+                (flat_map (cls o old new) (filter (rtop old new (eff_roots rs)) (all_keys old new))).
+Proof. exact roots_shallow_exact. Qed.
+Print Assumptions C08_roots_shallow.
+
+(* NOT PROVED: nothing is claimed below a hashed entry under shallow = True (deliberately inexact there);
+   rename detection on top of `roots` is modelled ([diff_roots]) and tied by the correspondence, the
+   C08_rename_... theorems are about any change list. *)
